@@ -5,12 +5,15 @@
 package c20
 
 import (
+	"errors"
 	"fmt"
+	"io"
 	"net"
 	"os"
 	"path/filepath"
 	"regexp"
 	"sort"
+	"strconv"
 	"strings"
 	"sync"
 	"syscall"
@@ -69,6 +72,11 @@ type prepared struct {
 	cache   string   // replaces the certificate cache path
 	args    []string // additional arguments
 	operand string   // offending path/address (informational: is it in the message?)
+	// defaultCache: no -tls-certificate-cache argument at all, the cache is in
+	// its default location, which the environment below makes unusable.
+	defaultCache bool
+	setenv       []string // KEY=value, replaces the variable of the private environment
+	unsetenv     []string // KEY, removed from the private environment
 }
 
 // fault is one injectable start-up fault.  File names used by faults are
@@ -81,7 +89,10 @@ type fault struct {
 	// soft: the statement does not clearly make this a condition the program
 	// "cannot satisfy"; the run is judged by the weak oracle only.
 	soft bool
-	prep func(e *env, dir string) prepared
+	// alwaysPaired: the quick tier, whose pairs are a sample, additionally
+	// runs this fault in one pair with a fault of another class.
+	alwaysPaired bool
+	prep         func(e *env, dir string) prepared
 }
 
 type env struct {
@@ -90,6 +101,10 @@ type env struct {
 	valid  []byte // a valid certificate cache archive
 	inUse  string // address the harness listens on
 	faults []fault
+	// root: where the per-case directories live; reachable for uid 65534.
+	root string
+	// privPorts: ports uid 65534 was seen to be refused (EACCES) on 127.0.0.1.
+	privPorts []int
 }
 
 func must(err error) {
@@ -116,6 +131,7 @@ func buildFaults(e *env, uidOK, nonLocalOK bool) []fault {
 	add := func(class, name string, uid, soft bool, prep func(e *env, dir string) prepared) {
 		fs = append(fs, fault{class: class, name: class + "/" + name, uid: uid, soft: soft, prep: prep})
 	}
+	paired := func() { fs[len(fs)-1].alwaysPaired = true }
 	lst := func(name, addr string) {
 		add(clListen, name, false, false, func(e *env, dir string) prepared {
 			return prepared{listen: addr, operand: addr}
@@ -129,6 +145,17 @@ func buildFaults(e *env, uidOK, nonLocalOK bool) []fault {
 	lst("port-99999", "127.0.0.1:99999")
 	if nonLocalOK {
 		lst("address-not-local", "192.0.2.1:4444")
+	}
+	// A port only root may bind, asked for by an unprivileged user: the one
+	// listen fault whose error is "permission denied".
+	if uidOK {
+		for _, port := range e.privPorts {
+			addr := fmt.Sprintf("127.0.0.1:%d", port)
+			add(clListen, fmt.Sprintf("privileged-port-%d", port), true, false, func(e *env, dir string) prepared {
+				return prepared{listen: addr, operand: addr}
+			})
+			paired()
+		}
 	}
 
 	cch := func(name string, uid bool, mk func(e *env, dir string) string) {
@@ -176,6 +203,43 @@ func buildFaults(e *env, uidOK, nonLocalOK bool) []fault {
 		})
 	}
 
+	// The cache in its DEFAULT location (no -tls-certificate-cache argument),
+	// made unwritable through the environment.  Directory names contain none
+	// of the cause keywords; the default path's own ".cache" component only
+	// appears when XDG_CACHE_HOME is unset.
+	dfl := func(name string, uid bool, mk func(e *env, dir string) prepared) {
+		add(clCache, "default-location-"+name, uid, false, func(e *env, dir string) prepared {
+			pr := mk(e, dir)
+			pr.defaultCache = true
+			return pr
+		})
+		paired()
+	}
+	dfl("home-under-proc", false, func(e *env, dir string) prepared {
+		return prepared{setenv: []string{"HOME=/proc/c20-no-such-home"}, unsetenv: []string{"XDG_CACHE_HOME"}, operand: "/proc/c20-no-such-home"}
+	})
+	dfl("xdg-under-proc", false, func(e *env, dir string) prepared {
+		return prepared{setenv: []string{"XDG_CACHE_HOME=/proc/c20-no-such-xdg"}, operand: "/proc/c20-no-such-xdg"}
+	})
+	dfl("home-under-regular-file", false, func(e *env, dir string) prepared {
+		h := filepath.Join(writeFile(filepath.Join(dir, "hf"), []byte("plain\n"), 0o644), "h")
+		return prepared{setenv: []string{"HOME=" + h}, unsetenv: []string{"XDG_CACHE_HOME"}, operand: h}
+	})
+	if uidOK {
+		dfl("home-not-writable", true, func(e *env, dir string) prepared {
+			h := roDir(filepath.Join(dir, "h555"), 0o555)
+			return prepared{setenv: []string{"HOME=" + h}, unsetenv: []string{"XDG_CACHE_HOME"}, operand: h}
+		})
+		dfl("xdg-not-writable", true, func(e *env, dir string) prepared {
+			x := roDir(filepath.Join(dir, "x555"), 0o555)
+			return prepared{setenv: []string{"XDG_CACHE_HOME=" + x}, operand: x}
+		})
+		dfl("xdg-parent-not-writable", true, func(e *env, dir string) prepared {
+			x := filepath.Join(roDir(filepath.Join(dir, "xp555"), 0o555), "sub")
+			return prepared{setenv: []string{"XDG_CACHE_HOME=" + x}, operand: x}
+		})
+	}
+
 	lg := func(name string, uid bool, mk func(e *env, dir string) string) {
 		add(clLog, name, uid, false, func(e *env, dir string) prepared {
 			p := mk(e, dir)
@@ -217,6 +281,21 @@ func buildFaults(e *env, uidOK, nonLocalOK bool) []fault {
 		return prepared{args: []string{"-print-ctrl-i", "-ctrl-i", p}, operand: p}
 	})
 	return fs
+}
+
+// raceDir is where binaries running as uid 65534 write race reports.
+func (e *env) raceDir() string { return filepath.Join(e.root, "race65534") }
+
+// collectRaceLogs copies those reports to where the dispatcher looks for them.
+func (e *env) collectRaceLogs() {
+	pre := os.Getenv("VERIF_RACELOG")
+	if pre == "" {
+		return
+	}
+	ents, _ := os.ReadDir(e.raceDir())
+	for _, en := range ents {
+		copyFile(pre+".uid65534."+en.Name(), filepath.Join(e.raceDir(), en.Name()), 0o644)
+	}
 }
 
 // caseSpec is one run of the binary with injected faults.
@@ -326,6 +405,7 @@ type runRecord struct {
 	TTY        bool     `json:"tty"`
 	Uid        int      `json:"uid"`
 	Args       []string `json:"args"`
+	Env        []string `json:"environment_of_default_cache,omitempty"`
 	Exited     bool     `json:"exited_by_itself"`
 	Status     int      `json:"status"`
 	Signal     string   `json:"signal,omitempty"`
@@ -339,7 +419,7 @@ type runRecord struct {
 
 func (e *env) runCase(c caseSpec, col *collector) {
 	r := e.r
-	dir := filepath.Join(r.Work, "c", fmt.Sprintf("%s-%d", c.engine, c.index))
+	dir := filepath.Join(e.root, "c", fmt.Sprintf("%s-%d", c.engine, c.index))
 	must(os.MkdirAll(dir, 0o755))
 	must(os.Chmod(dir, 0o777))
 	defer func() {
@@ -359,9 +439,21 @@ func (e *env) runCase(c caseSpec, col *collector) {
 	var operands []string
 	uid := 0
 	strong := c.flag == flNone
+	defaultCache := false
+	envv := crs.Env(dir)
 	for _, i := range c.faults {
 		f := e.faults[i]
 		pr := f.prep(e, dir)
+		if pr.defaultCache {
+			defaultCache = true
+		}
+		for _, k := range pr.unsetenv {
+			envv = dropEnv(envv, k)
+		}
+		for _, kv := range pr.setenv {
+			k, _, _ := strings.Cut(kv, "=")
+			envv = append(dropEnv(envv, k), kv)
+		}
 		if pr.listen != "" {
 			listen = pr.listen
 		}
@@ -379,7 +471,16 @@ func (e *env) runCase(c caseSpec, col *collector) {
 			strong = false
 		}
 	}
-	args := []string{"-listen-address", listen, "-tls-certificate-cache", cache}
+	if uid != 0 && os.Getenv("VERIF_RACELOG") != "" {
+		// The race detector creates the directories of its log path at
+		// start-up and gives up (status 66) where it may not: an unprivileged
+		// run logs below the case root; Run moves the reports afterwards.
+		envv = append(dropEnv(envv, "GORACE"), "GORACE=halt_on_error=0 log_path="+filepath.Join(e.raceDir(), "r"))
+	}
+	args := []string{"-listen-address", listen}
+	if !defaultCache {
+		args = append(args, "-tls-certificate-cache", cache)
+	}
 	args = append(args, extra...)
 	switch c.flag {
 	case flTemplate, flHelp:
@@ -400,7 +501,7 @@ func (e *env) runCase(c caseSpec, col *collector) {
 	sig := fmt.Sprintf("%v|%s|tty=%v", names, c.flag, !c.noTTY)
 
 	t0 := time.Now()
-	p, err := ptyx.Start(ptyx.Opts{Path: e.bin, Args: args, Env: crs.Env(dir), Dir: dir, NoTTY: c.noTTY, Uid: uid})
+	p, err := ptyx.Start(ptyx.Opts{Path: e.bin, Args: args, Env: envv, Dir: dir, NoTTY: c.noTTY, Uid: uid})
 	if err != nil {
 		r.Inconclusive(fmt.Sprintf("%s: cannot start the binary: %v", sig, err))
 		return
@@ -430,6 +531,13 @@ func (e *env) runCase(c caseSpec, col *collector) {
 		_, _, exited = p.WaitExit(crs.Bound)
 	}
 	rec := runRecord{Faults: names, Flag: c.flag, TTY: !c.noTTY, Uid: uid, Args: args, Exited: exited, Listening: listening}
+	if defaultCache {
+		for _, kv := range envv {
+			if strings.HasPrefix(kv, "HOME=") || strings.HasPrefix(kv, "XDG_CACHE_HOME=") {
+				rec.Env = append(rec.Env, kv)
+			}
+		}
+	}
 	if exited {
 		rec.Status, rec.Signal, _ = p.WaitExit(time.Second)
 	}
@@ -460,6 +568,31 @@ func (e *env) runCase(c caseSpec, col *collector) {
 	}
 	for _, cl := range classes {
 		r.Count("runs_class_"+cl, 1)
+	}
+	privPort := false
+	for _, i := range c.faults {
+		r.Count("runs_fault:"+e.faults[i].name, 1)
+		if strings.HasPrefix(e.faults[i].name, clListen+"/privileged-port-") {
+			privPort = true
+		}
+	}
+	if privPort {
+		r.Count("privileged_port_runs", 1)
+		if !c.noTTY {
+			r.Count("privileged_port_runs_tty", 1)
+		}
+		if len(c.faults) == 2 {
+			r.Count("privileged_port_pairs", 1)
+		}
+	}
+	if defaultCache {
+		r.Count("default_location_cache_runs", 1)
+		if !c.noTTY {
+			r.Count("default_location_cache_runs_tty", 1)
+		}
+		if len(c.faults) == 2 {
+			r.Count("default_location_cache_pairs", 1)
+		}
 	}
 	switch len(c.faults) {
 	case 0:
@@ -499,6 +632,12 @@ func (e *env) runCase(c caseSpec, col *collector) {
 			r.Inconclusive(fmt.Sprintf("%s: cannot read the terminal mode after exit: %v", sig, err))
 		} else {
 			r.Count("termios_comparisons", 1)
+			if uid != 0 {
+				r.Count("termios_comparisons_as_uid_65534", 1)
+			}
+			if privPort {
+				r.Count("termios_comparisons_privileged_port", 1)
+			}
 			rec.ModeBefore, rec.ModeAfter = ptyx.ModeString(p.Before), ptyx.ModeString(after)
 			same := ptyx.SameMode(p.Before, after)
 			rec.ModeSame = &same
@@ -549,6 +688,12 @@ func (e *env) runCase(c caseSpec, col *collector) {
 		}
 		if clean {
 			r.Count("faults_reported_cleanly", 1)
+			if privPort {
+				r.Count("privileged_port_faults_reported_cleanly", 1)
+			}
+			if defaultCache {
+				r.Count("default_location_cache_faults_reported_cleanly", 1)
+			}
 			for _, op := range operands {
 				if strings.Contains(out, op) {
 					r.Count("cause_operand_in_message", 1)
@@ -584,6 +729,14 @@ func (e *env) runCase(c caseSpec, col *collector) {
 		kind += "-tty"
 	}
 	r.Sample(kind, rec)
+	if len(c.faults) == 1 && !c.noTTY && c.flag == flNone {
+		switch {
+		case privPort:
+			r.Sample("fault-privileged-port-as-uid-65534-tty", rec)
+		case defaultCache:
+			r.Sample("fault-default-location-cache-tty:"+names[0], rec)
+		}
+	}
 }
 
 // ---- clean exits --------------------------------------------------------------
@@ -851,17 +1004,165 @@ func openToAll(p string) bool {
 	return true
 }
 
+// reachable: every component of p is searchable and readable by others.
+func reachable(p string) bool {
+	for q := filepath.Clean(p); q != "/" && q != "."; q = filepath.Dir(q) {
+		fi, err := os.Stat(q)
+		if err != nil || fi.Mode().Perm()&0o005 != 0o005 {
+			return false
+		}
+	}
+	return true
+}
+
+// caseRoot returns the directory below which the per-case directories (and
+// the binary) live.  Normally the work directory; when that cannot be made
+// reachable for uid 65534 (the verification directory sits below a 0700
+// directory, as a scratch copy made with mktemp -d does), a private directory
+// in the system's temporary directory, removed by the returned function.
+func caseRoot(r *mon.Run) (string, func()) {
+	if os.Geteuid() != 0 || openToAll(r.Work) {
+		return r.Work, func() {}
+	}
+	d, err := os.MkdirTemp("", "c20-uid-")
+	if err != nil || os.Chmod(d, 0o755) != nil || !reachable(d) {
+		if err == nil {
+			os.RemoveAll(d)
+		}
+		return r.Work, func() {}
+	}
+	r.Logf("work directory %s is not reachable for uid 65534; fault runs use %s", r.Work, d)
+	return d, func() {
+		filepath.Walk(d, func(p string, fi os.FileInfo, err error) error {
+			if err == nil && fi.IsDir() {
+				os.Chmod(p, 0o755)
+			}
+			return nil
+		})
+		os.RemoveAll(d)
+	}
+}
+
+func dropEnv(env []string, key string) []string {
+	out := make([]string, 0, len(env))
+	for _, kv := range env {
+		if !strings.HasPrefix(kv, key+"=") {
+			out = append(out, kv)
+		}
+	}
+	return out
+}
+
+func copyFile(dst, src string, mode os.FileMode) error {
+	in, err := os.Open(src)
+	if err != nil {
+		return err
+	}
+	defer in.Close()
+	out, err := os.OpenFile(dst, os.O_CREATE|os.O_WRONLY|os.O_TRUNC, mode)
+	if err != nil {
+		return err
+	}
+	if _, err = io.Copy(out, in); err != nil {
+		out.Close()
+		return err
+	}
+	if err = out.Close(); err != nil {
+		return err
+	}
+	return os.Chmod(dst, mode)
+}
+
+// ChildBind is the `--child=c20bind` sub-command: it tries to listen on every
+// address given and prints one line per address: "<addr>\tbound",
+// "<addr>\tdenied" (EACCES/EPERM) or "<addr>\terror\t<text>".
+func ChildBind(args []string) int {
+	for _, a := range args {
+		l, err := net.Listen("tcp", a)
+		switch {
+		case err == nil:
+			l.Close()
+			fmt.Printf("%s\tbound\n", a)
+		case errors.Is(err, syscall.EACCES) || errors.Is(err, syscall.EPERM):
+			fmt.Printf("%s\tdenied\n", a)
+		default:
+			fmt.Printf("%s\terror\t%v\n", a, err)
+		}
+	}
+	return 0
+}
+
+// probePrivPorts finds ports on 127.0.0.1 that uid 65534 is refused with
+// "permission denied": candidates below net.ipv4.ip_unprivileged_port_start,
+// each tried by a copy of this program running as that user (which must at the
+// same time be able to bind port 0).  An empty list comes with the reason.
+func probePrivPorts(root string) ([]int, string) {
+	b, err := os.ReadFile("/proc/sys/net/ipv4/ip_unprivileged_port_start")
+	if err != nil {
+		return nil, "cannot read ip_unprivileged_port_start: " + err.Error()
+	}
+	ups, err := strconv.Atoi(strings.TrimSpace(string(b)))
+	if err != nil {
+		return nil, "cannot parse ip_unprivileged_port_start: " + err.Error()
+	}
+	var cand []int
+	for _, p := range []int{80, 443, 1} {
+		if p < ups {
+			cand = append(cand, p)
+		}
+	}
+	if ups > 2 && len(cand) < 2 {
+		cand = append(cand, ups-1)
+	}
+	if len(cand) == 0 {
+		return nil, fmt.Sprintf("net.ipv4.ip_unprivileged_port_start is %d: no port is privileged here", ups)
+	}
+	self := os.Getenv("VCHECK_SELF")
+	if self == "" {
+		self, _ = os.Executable()
+	}
+	probe := filepath.Join(root, "bindprobe")
+	if err := copyFile(probe, self, 0o755); err != nil {
+		return nil, "cannot copy the probe program: " + err.Error()
+	}
+	defer os.Remove(probe)
+	args := []string{"--child=c20bind", "127.0.0.1:0"}
+	for _, p := range cand {
+		args = append(args, fmt.Sprintf("127.0.0.1:%d", p))
+	}
+	res := mon.Proc{Path: probe, Args: args, Uid: nobody, Timeout: crs.Bound, Env: []string{"PATH=/usr/bin:/bin"}}.Run()
+	got := map[string]string{}
+	for _, l := range strings.Split(string(res.Stdout), "\n") {
+		if f := strings.Split(l, "\t"); len(f) >= 2 {
+			got[f[0]] = f[1]
+		}
+	}
+	if res.Status != 0 || got["127.0.0.1:0"] != "bound" {
+		return nil, fmt.Sprintf("bind probe as uid 65534 did not work (status %d, stdout %q, stderr %q)", res.Status, res.Stdout, tail(string(res.Stderr), 300))
+	}
+	var ports []int
+	for _, p := range cand {
+		if got[fmt.Sprintf("127.0.0.1:%d", p)] == "denied" {
+			ports = append(ports, p)
+		}
+	}
+	if len(ports) == 0 {
+		return nil, fmt.Sprintf("uid 65534 was not refused any of the ports %v (probe said %q)", cand, res.Stdout)
+	}
+	return ports, ""
+}
+
 // probeUid checks that a process running as the unprivileged user can write in
 // a 0777 directory below the work directory but not in a 0555 root-owned one:
 // only then do the "not writable" faults mean what they say.
-func probeUid(r *mon.Run) (bool, string) {
+func probeUid(r *mon.Run, root string) (bool, string) {
 	if os.Geteuid() != 0 {
 		return false, "harness does not run as root, cannot switch to uid 65534"
 	}
-	if !openToAll(r.Work) {
+	if !reachable(root) {
 		return false, "work directory not reachable for uid 65534"
 	}
-	d := filepath.Join(r.Work, "probe")
+	d := filepath.Join(root, "probe")
 	roDir(filepath.Join(d, "w"), 0o777)
 	roDir(filepath.Join(d, "ro"), 0o555)
 	defer os.RemoveAll(d)
@@ -879,15 +1180,21 @@ func Run(r *mon.Run) {
 		"'names the cause' is judged by class keywords (tty|terminal, listen, cach|certificate, log, ctrl+i|insert|source), case-insensitively, on pty+stdout+stderr; the offending path/address is only counted, not demanded",
 		"with an informational flag, or with a -ctrl-i FIFO, only the weak oracle applies: no crash output, mode restored, a non-zero status comes with a cause",
 		"'unwritable' faults run the binary as uid 65534 against root-owned 0555/0500/0444 objects (checked by a probe)",
+		"privileged-port listen faults: uid 65534 asks for a port below net.ipv4.ip_unprivileged_port_start on 127.0.0.1 (refusal checked by a probe running as that user)",
+		"default-location cache faults: no -tls-certificate-cache argument; HOME / XDG_CACHE_HOME point below /proc, below a regular file, or (uid 65534) into a root-owned 0555 directory",
 	)
 
-	bin, err := crs.Build(r.Work, "")
+	root, cleanupRoot := caseRoot(r)
+	defer cleanupRoot()
+	bin, err := crs.Build(root, "")
 	if err != nil {
 		r.Inconclusive("build: " + err.Error())
 		return
 	}
 	os.Chmod(bin, 0o755)
-	e := &env{r: r, bin: bin}
+	e := &env{r: r, bin: bin, root: root}
+	roDir(e.raceDir(), 0o777)
+	defer e.collectRaceLogs()
 
 	// A valid cache archive, written by the library itself.
 	cp, kp, _, err := sstls.GenerateSelfSignedCertificate("", nil, nil, 0)
@@ -922,9 +1229,16 @@ func Run(r *mon.Run) {
 		r.Logf("192.0.2.1 can be bound here (ip_nonlocal_bind?); address-not-local fault dropped")
 		r.Assumptions = append(r.Assumptions, "address-not-local fault dropped: 192.0.2.1 can be bound on this host")
 	}
-	uidOK, why := probeUid(r)
+	uidOK, why := probeUid(r, root)
 	if !uidOK {
 		r.Inconclusive("faults that need an unprivileged user were not run: " + why)
+	} else {
+		var note string
+		if e.privPorts, note = probePrivPorts(root); len(e.privPorts) == 0 {
+			r.Inconclusive("privileged-port listen faults were not run: " + note)
+			r.Assumptions = append(r.Assumptions, "privileged-port faults dropped: "+note)
+		}
+		r.Extra("privileged_ports_refused_to_uid_65534", e.privPorts)
 	}
 	e.faults = buildFaults(e, uidOK, nonLocalOK)
 	r.Extra("fault_list", func() []string {
@@ -1001,6 +1315,28 @@ func Run(r *mon.Run) {
 				flag = flNone
 			}
 			addCase("pair", &pi, []int{p.a, p.b}, flag, noTTY)
+		}
+		// one more pair (TTY, no flag) for every fault marked alwaysPaired,
+		// with a partner of another class drawn from the case's own PRNG.
+		k := 0
+		for a, f := range e.faults {
+			if !f.alwaysPaired {
+				continue
+			}
+			rng := r.Rng("pair", 40+k)
+			k++
+			var partners []int
+			for b := range e.faults {
+				if e.faults[b].class != f.class {
+					partners = append(partners, b)
+				}
+			}
+			b := partners[rng.IntN(len(partners))]
+			if b < a {
+				addCase("pair", &pi, []int{b, a}, flNone, false)
+			} else {
+				addCase("pair", &pi, []int{a, b}, flNone, false)
+			}
 		}
 	}
 	r.Extra("fault_pairs_possible", len(prs))
@@ -1079,5 +1415,24 @@ func Run(r *mon.Run) {
 	}
 	for _, h := range cleanHows {
 		r.Floor("clean_exit_runs_"+h, 1)
+	}
+	// Every fault of the list ran on a TTY and without one; the ones that
+	// exist only conditionally have floors of their own.
+	for _, f := range e.faults {
+		r.Floor("runs_fault:"+f.name, 2)
+	}
+	r.Floor("default_location_cache_runs_tty", 3)
+	r.Floor("default_location_cache_faults_reported_cleanly", 3)
+	r.Floor("default_location_cache_pairs", 3)
+	if os.Geteuid() == 0 {
+		// as root the unprivileged runs are possible: they must have happened
+		r.Floor("runs_as_uid_65534", 20)
+		r.Floor("termios_comparisons_as_uid_65534", 10)
+	}
+	if n := int64(len(e.privPorts)); n > 0 {
+		r.Floor("privileged_port_runs_tty", n)
+		r.Floor("termios_comparisons_privileged_port", n)
+		r.Floor("privileged_port_faults_reported_cleanly", n)
+		r.Floor("privileged_port_pairs", n)
 	}
 }
